@@ -65,6 +65,32 @@ Theorem C05_reply_table :
       (forall k, queue_of g' k = queue_of g k ++ withheld_part (vw_sleeping (view_of clock g)) k P).
 Proof. exact reply_table. Qed.
 
+(* the same read off the transport log, one inbound line in each task flavour.  asyncio:
+   handle_line runs logic at once and sends the reply *)
+Theorem C05_reply_table_asyncio :
+  forall orc clock v g l m,
+    cfgv v g -> Inv orc g -> accepted orc g l m ->
+    wakes_up v (view_of clock g) m = false -> cf_async (g_cf g) = true ->
+    let P := prescribed v (view_of clock g) m in
+    let g' := recv orc clock g l in
+    sends (g_log g') = sends (g_log g) ++ emitted_part (vsleep g) P /\ g_jobs g' = g_jobs g /\
+    forall k, queue_of g' k = queue_of g k ++ withheld_part (vsleep g) k P.
+Proof. exact recv_async_reply_table. Qed.
+
+(* threaded: the line waits in the job queue; the pump iteration that runs it sends the reply at
+   once, and the commands produced inside the call (ns) join the job queue as send jobs *)
+Theorem C05_reply_table_threaded :
+  forall orc clock v g l rest m,
+    cfgv v g -> Inv orc g -> cf_async (g_cf g) = false ->
+    g_jobs g = JLogic l :: rest ->
+    accepted orc (set_jobs g rest) l m -> wakes_up v (view_of clock (set_jobs g rest)) m = false ->
+    let P := prescribed v (view_of clock (set_jobs g rest)) m in
+    let g' := pump orc clock g in
+    exists ns r, ns ++ olist r = emitted_part (vsleep g) P /\
+      sends (g_log g') = sends (g_log g) ++ olist r /\ g_jobs g' = rest ++ map JSend ns /\
+      forall k, queue_of g' k = queue_of g k ++ withheld_part (vsleep g) k P.
+Proof. exact pump_reply_table. Qed.
+
 (* "exactly one presentation request and nothing else": the table never prescribes two commands *)
 Theorem C05_at_most_one_command : forall v vw m, (List.length (prescribed v vw m) <= 1)%nat.
 Proof. exact prescribed_length. Qed.
@@ -152,9 +178,9 @@ Proof. exact replies_validate. Qed.
 (* validation depends on the ack flag only through "ack is 0 or 1": a value accepted in a set
    message is accepted in the reply to a request, whatever the request's ack flag *)
 Theorem C05_validate_ack_independent :
-  forall orc v n c a a' s p, vld orc v (mkMsg n c 1 a s p) = true -> (a' = 0 \/ a' = 1) ->
-    vld orc v (mkMsg n c 1 a' s p) = true.
-Proof. exact vld_set_ack. Qed.
+  forall orc v n c ty a a' s p, vld orc v (mkMsg n c ty a s p) = true -> (a' = 0 \/ a' = 1) ->
+    vld orc v (mkMsg n c ty a' s p) = true.
+Proof. exact vld_ack. Qed.
 
 (* ---------------------------------------------------------------- 4. reply_addressing *)
 (* the table: every prescribed command goes to the sender of the inbound message, except the
@@ -192,6 +218,22 @@ Theorem C05_reply_addressing :
            exists x, s = encode x /\ In x (prescribed v (view_of clock g) m) /\ m_node x = k /\
                      (k = m_node m \/ (x = discover_request (m_child m) /\ k = 255))).
 Proof. exact reply_addressing. Qed.
+
+(* the controller call set_child_value: the commands it emits or withholds (closed form
+   set_child_commands: a presentation request to sid when node or child is unknown on >= 2.0;
+   nothing while the node sleeps - the value is stored as desired state; else the validated set
+   command with the caller's message type / ack) all carry the node id given by the caller *)
+Theorem C05_set_child_value_addressing :
+  forall orc clock v g sid cid vt x mt a g',
+    cfgv v g -> Inv orc g ->
+    set_child_value orc g sid cid vt x mt a = Ok g' ->
+    let N := set_child_commands clock v g sid cid vt x mt a in
+    (if cf_async (g_cf g)
+     then sends (g_log g') = sends (g_log g) ++ emitted_part (vsleep g) N /\ g_jobs g' = g_jobs g
+     else sends (g_log g') = sends (g_log g) /\ g_jobs g' = g_jobs g ++ map JSend (emitted_part (vsleep g) N)) /\
+    (forall k, queue_of g' k = queue_of g k ++ withheld_part (vsleep g) k N) /\
+    (forall y, In y N -> m_node y = sid).
+Proof. exact set_child_value_addressing. Qed.
 
 (* ---------------------------------------------------------------- non-vacuity *)
 Example C05_ex_req_answered :
@@ -245,12 +287,26 @@ Example C05_ex_reply_table_premises :
   wakes_up V22 (view_of 0 g) (mkMsg 1 0 2 1 2 []) = false /\ g_sensors g <> [].
 Proof. exact ex_reply_table_premises. Qed.
 
+(* corner cases worth knowing (consistent with the table, see notes/C05-proofs.md) *)
+Example C05_ex_discover_withheld :
+  let g := run no_oracles 0 (gw_init cf22)
+             [Recv (s2p "255;255;0;0;3;x"); Recv (s2p "255;0;0;0;3;relay"); Recv (s2p "255;255;3;0;32;500")] in
+  let g' := step no_oracles 0 g (Recv (s2p "0;255;3;0;14;ready")) in
+  vsleep g 255 = true /\ new_sends g g' = [] /\ queue_of g' 255 = [s2p "255;255;3;0;20;" ++ [nl]].
+Proof. exact ex_discover_withheld. Qed.
+
+Example C05_ex_id_response_copies_child :
+  sends (g_log (run no_oracles 0 (gw_init cf22) [Recv (s2p "255;-3;3;1;3;")])) = [s2p "255;-3;3;0;4;1" ++ [nl]].
+Proof. exact ex_id_response_copies_child. Qed.
+
 Print Assumptions C05_configurations.
 Print Assumptions C05_type_resolution.
 Print Assumptions C05_internal_resolution.
 Print Assumptions C05_stream_resolution.
 Print Assumptions C05_route_closed.
 Print Assumptions C05_reply_table.
+Print Assumptions C05_reply_table_asyncio.
+Print Assumptions C05_reply_table_threaded.
 Print Assumptions C05_at_most_one_command.
 Print Assumptions C05_no_spurious_output_rejected.
 Print Assumptions C05_no_spurious_output_silent.
@@ -263,3 +319,4 @@ Print Assumptions C05_validate_ack_independent.
 Print Assumptions C05_prescribed_addressing.
 Print Assumptions C05_presentation_request_addressing.
 Print Assumptions C05_reply_addressing.
+Print Assumptions C05_set_child_value_addressing.
